@@ -6,7 +6,7 @@ for l in open('/verif/properties.jsonl'):
     p=json.loads(l)
     if p['id']==pid:
         txt=f"Property {pid}: {p['title']}\n\nStatement: {p['statement']}\n\nQuantifier: {p['quantifier']['text']}\n\nWhy existing tests cannot settle it: {p['why_tests_cant']}\n\nCode anchors: files={p['anchors'].get('files')}; mechanisms={[ (m['name'],m['where']) for m in p['anchors'].get('mechanism',[])]}; observe at={p['anchors'].get('observe_at')}\n"
-t=open('/tmp/seed/PROMPT.tmpl').read().replace('@PID@',pid).replace('@PROPERTY@',txt)
+t=open(os.path.join(os.path.dirname(os.path.abspath(__file__)),'seed_prompt.tmpl')).read().replace('@PID@',pid).replace('@PROPERTY@',txt)
 a,b=k0,k0+1
 t=t.replace('patch1',f'patch{a}').replace('patch2',f'patch{b}').replace('demo1',f'demo{a}').replace('demo2',f'demo{b}').replace('K in {1,2}',f'K in {{{a},{b}}}')
 prev=[]
